@@ -124,6 +124,8 @@ impl FlowSetBody {
                         nom::error::ErrorKind::Verify,
                     )));
                 }
+                // The latest definition of an id wins, whichever kind it is.
+                parser.options_templates.remove(&template.template_id);
                 parser
                     .templates
                     .insert(template.template_id, template.clone());
@@ -137,6 +139,8 @@ impl FlowSetBody {
                         nom::error::ErrorKind::Verify,
                     )));
                 }
+                // The latest definition of an id wins, whichever kind it is.
+                parser.templates.remove(&options_template.template_id);
                 parser
                     .options_templates
                     .insert(options_template.template_id, options_template.clone());
